@@ -105,14 +105,16 @@ def rand_desc(r, p_bad=0.25):
         return rand_desc(r, p_bad)
     return d
 
-def run_impl(descs, same_spatial, range_configured, kind="Debiaser", diff_pos=None):
+def run_impl(descs, same_spatial, range_configured, kind="Debiaser", diff_pos=None, variant=None):
     d, calls = probe(range_configured, kind)
     Ts = [3, 4, 5]
     if diff_pos is None:
         diff_pos = (sum(len(str(x)) for x in descs) + int(range_configured)) % 3    # deterministic choice of the differing argument
     sp = [(2, 3), (2, 3), (2, 3)]
     if not same_spatial:
-        sp[diff_pos] = (3, 2)
+        # the differing argument differs in both spatial axes, only the first, or only the last (larger / smaller)
+        h = sum(len(str(x)) * (k + 1) for k, x in enumerate(descs)) + 2 * int(range_configured) + (0 if kind == "Debiaser" else 1)
+        sp[diff_pos] = [(3, 2), (3, 3), (2, 4), (2, 2)][(h if variant is None else variant) % 4]
     arrs = [build(x, T, s) for x, T, s in zip(descs, Ts, sp)]
     with warnings.catch_warnings(record=True) as w:
         warnings.simplefilter("always")
@@ -200,6 +202,15 @@ def search(res, tier, seed, deep=False):
         seen.add(cls_)
         res.witness(dict(component="Debiaser.apply", statement=stmt, input=inp, observed=obs, expected="C14 input contract", **{"class": cls_}))
     good = dict(nd=True, dt="float64", ndim=3, nonfinite=False, oor=False, msk="no")
+    # systematic: well-formed arrays, one argument with another spatial shape (each position x each way of differing)
+    for kind in ("Debiaser", "DeltaChange"):
+        for pos in range(3):
+            for variant in range(4):
+                out_res, ws, out, ncalls = run_impl([dict(good)] * 3, False, False, kind, diff_pos=pos, variant=variant)
+                res.case(("shape-mismatch", kind, pos, variant))
+                if out_res != "E_Value" or ncalls > 0:
+                    report("spatial-shape-accepted", dict(kind="shape", apply=kind, differing_argument=ARG[pos] if isinstance(ARG, (list, tuple)) else pos, variant=["both axes", "first axis", "last axis larger", "last axis smaller"][variant]),
+                           [out_res, ncalls], "arrays whose spatial shapes differ must be rejected with ValueError before any location is processed")
     n = 150 if tier == "quick" else 1500
     for i in range(n):
         ds = [rand_desc(r, 0.3) for _ in range(3)]
